@@ -173,10 +173,21 @@ func childC16(args []string) int {
 			st.ResetLog()
 			res = handlerExec(h, wire.Cmd{Op: op, Key: key, Value: val}, 0)
 			total = base + vl
-		case "touch":
+		case "touch", "gat":
 			handlerExec(h, wire.Cmd{Op: "set", Key: key, Value: val}, 0)
 			st.ResetLog()
-			res = handlerExec(h, wire.Cmd{Op: "touch", Key: key, TTL: 5000}, rng.Intn(2)*6)
+			res = handlerExec(h, wire.Cmd{Op: op, Key: key, TTL: 5000}, rng.Intn(2)*6)
+		case "set-past", "replace-past", "add-past":
+			// an expiration time that is already in the past, over an existing (or, for add, a
+			// missing) key: whatever the handler writes must still obey the entry discipline
+			if op != "add-past" {
+				handlerExec(h, wire.Cmd{Op: "set", Key: key, Value: makeValue(id, 1+rng.Intn(2500))}, 0)
+				id++
+			} else {
+				handlerExec(h, wire.Cmd{Op: "delete", Key: key}, 0)
+			}
+			st.ResetLog()
+			res = handlerExec(h, wire.Cmd{Op: strings.TrimSuffix(op, "-past"), Key: key, Value: val, TTL: st.Now() - 100000}, 0)
 		}
 		log := st.Log()
 		run.Eval(1)
@@ -186,12 +197,12 @@ func childC16(args []string) int {
 			fail(kl, total, op, "write command failed: "+classKind(res.Class), log)
 			return
 		}
-		if op == "touch" {
-			// touch rewrites only the metadata
+		if op == "touch" || op == "gat" || strings.HasSuffix(op, "-past") {
+			// these paths rewrite at most the metadata
 			for _, rq := range log {
-				if rq.Op == fakemc.OpSet && rq.Status == 0 {
+				if (rq.Op == fakemc.OpSet || rq.Op == fakemc.OpAdd || rq.Op == fakemc.OpReplace) && rq.Status == 0 {
 					if derivedIndex(key, rq.Key) != -1 {
-						fail(kl, total, op, "touch wrote a backend entry other than the metadata", log)
+						fail(kl, total, op, op+" wrote a backend entry other than the metadata", log)
 					} else if rq.ValLen != 40 {
 						fail(kl, total, op, "metadata value length is not 40", log)
 					}
@@ -213,6 +224,8 @@ func childC16(args []string) int {
 			doWrite(kl, 1+rng.Intn(2*p), "append")
 			doWrite(kl, 1+rng.Intn(2*p), "prepend")
 			doWrite(kl, 1+rng.Intn(2*p), "touch")
+			doWrite(kl, 1+rng.Intn(2*p), "gat")
+			doWrite(kl, 1+rng.Intn(2*p), []string{"set-past", "replace-past", "add-past"}[kl%3])
 		}
 		st.EvictAll()
 	}
